@@ -171,7 +171,7 @@ func genDir(r *core.Rand) pipe.DirPlan {
 	return d
 }
 
-var hostileKinds = []string{"silent", "partial", "garbage-nocr", "garbage-cr", "close-now", "close-at", "callsign-only", "drip", "slow", "connect-hang", "refused"}
+var hostileKinds = []string{"silent", "partial", "garbage-nocr", "garbage-cr", "close-now", "close-at", "callsign-only", "drip", "slow", "connect-hang", "refused", "stall-after-prompt"}
 
 func genGarbage(r *core.Rand, withCR bool) Bin {
 	n := r.Range(1, 3000)
@@ -301,7 +301,16 @@ func generate(tier string, r *core.Rand) Plan {
 		if r.Chance(0.5) {
 			sv.PromptDelayUs = core.Tape(r, 2, func() int { return r.Pick(1, 1) * r.Intn(300000) })
 		}
+		if hostile && (sv.Kind == "stall-after-prompt" || r.Chance(0.25)) {
+			// back-pressure towards the server: a reply longer than the window blocks the dialler's Write
+			p.Link.AB.Window = r.Range(1, 48)
+		}
 		switch sv.Kind {
+		case "stall-after-prompt":
+			sv.Off = r.Intn(2)
+			if r.Chance(0.7) {
+				p.Call = Bin(cleanCall(randBytesNoCR(r, r.Range(60, 400))))
+			}
 		case "partial", "close-at":
 			sv.Off = r.Intn(len(prompt1) + len(prompt2))
 		case "garbage-nocr":
